@@ -307,25 +307,24 @@ func (e *Evaluator) evalExpr(expr Expr) (*Cell, error) {
 					e.stackTop.locals[k] = v
 				}
 
+				val := NewCell(NewValue(nil))
 				switch body := matchCase.Body.(type) {
 				case *StatementExpr:
-					val, err := e.evalExpr(body.Expr)
-					if err != nil {
-						return nil, err
-					}
-					return val, nil
+					val, err = e.evalExpr(body.Expr)
 				default:
-					err := e.evalStatement(body)
-					if err != nil {
-						return nil, err
-					}
+					err = e.evalStatement(body)
 				}
 
+				// the binding frame is left on every path, also when the body
+				// fails or is abandoned by return / next / break / exit
 				if err := e.popFrame(); err != nil {
 					return nil, err
 				}
+				if err != nil {
+					return nil, err
+				}
 
-				return NewCell(NewValue(nil)), nil
+				return val, nil
 			}
 		}
 		return NewCell(NewValue(nil)), nil
@@ -433,6 +432,11 @@ func (e *Evaluator) callFunction(exp *ExprCall, fn *Cell, args []*Value) (*Cell,
 		}
 
 		err := e.evalStatement(f.Body)
+		// the call frame is left on every path (return, fall-through, next, exit, error)
+		if err := e.popFrame(); err != nil {
+			return nil, err
+		}
+
 		var retVal *Value
 		if err == errReturn {
 			retVal = e.returnVal
@@ -440,10 +444,6 @@ func (e *Evaluator) callFunction(exp *ExprCall, fn *Cell, args []*Value) (*Cell,
 			return nil, err
 		} else {
 			retVal = nil
-		}
-
-		if err := e.popFrame(); err != nil {
-			return nil, err
 		}
 
 		if retVal != nil {
